@@ -9,12 +9,13 @@ import AdaptixProofs.Lemmas.ThreadsStep
 namespace Adaptix.Threads
 
 def Sub.cost : Sub → Nat
-  | .look => 4
-  | _ => 3
+  | .look => 3
+  | .get => 2
+  | .store _ => 1
 
 def Phase.measure (len : Nat) : Phase → Nat
-  | .idle => 2 * len + 5
-  | .run pc sub => 2 * (len - pc) + sub.cost
+  | .idle => 3 * len + 6
+  | .run pc sub => 3 * (len - pc) + sub.cost + 2
   | .put => 2
   | .call _ => 1
   | .done => 0
@@ -23,9 +24,9 @@ def Phase.measure (len : Nat) : Phase → Nat
 def measure (sys : Sys) (th : Thread) : Nat := th.phase.measure (sys.body th.ty).length
 
 /-- actions that are always enough for a request of type `ty` -/
-def stepBound (sys : Sys) (ty : TyId) : Nat := 2 * (sys.body ty).length + 5
+def stepBound (sys : Sys) (ty : TyId) : Nat := 3 * (sys.body ty).length + 6
 
-theorem Sub.cost_le (sub : Sub) : sub.cost ≤ 4 ∧ 3 ≤ sub.cost := by cases sub <;> simp [Sub.cost]
+theorem Sub.cost_le (sub : Sub) : sub.cost ≤ 3 ∧ 1 ≤ sub.cost := by cases sub <;> simp [Sub.cost]
 
 theorem measure_le_bound (sys : Sys) (th : Thread) : measure sys th ≤ stepBound sys th.ty := by
   unfold measure stepBound
@@ -39,10 +40,10 @@ theorem nextPhase_measure_lt (len pc : Nat) (sub : Sub) (hlt : pc < len) :
   unfold nextPhase
   by_cases h : pc + 1 < len
   · rw [if_pos h]
-    show 2 * (len - (pc + 1)) + 4 < 2 * (len - pc) + sub.cost
+    show 3 * (len - (pc + 1)) + 3 + 2 < 3 * (len - pc) + sub.cost + 2
     omega
   · rw [if_neg h]
-    show 2 < 2 * (len - pc) + sub.cost
+    show 2 < 3 * (len - pc) + sub.cost + 2
     omega
 
 theorem measure_nextPhase_lt {sys : Sys} {th th' : Thread} {pc : Nat} {sub : Sub}
@@ -135,7 +136,14 @@ theorem step_self (sys : Sys) {s : State} {t : Tid} {th : Thread} (hth : s.threa
           cases ccLookup sys.mode s.stubs s.callCache
               { site := site, const := const, aux := kind.isAux, args := (th.stack.take nargs).reverse } with
           | some v => exact ⟨_, hset _ _ _ rfl, rfl, rfl, Or.inl (measure_nextPhase_lt hp rfl rfl hpc), by done_tac⟩
-          | none => exact ⟨_, hset _ _ _ rfl, rfl, rfl, Or.inl (measure_nextPhase_lt hp rfl rfl hpc), by done_tac⟩
+          | none =>
+            simp only
+            cases hcr : created s t site const (th.stack.take nargs).reverse kind with
+            | none => exact ⟨_, hset _ _ _ rfl, rfl, rfl, Or.inl (measure_nextPhase_lt hp rfl rfl hpc), by done_tac⟩
+            | some p =>
+              obtain ⟨s1, r⟩ := p
+              exact ⟨_, hset _ _ _ (created_threads hcr), rfl, rfl,
+                Or.inl (by simp [measure, hp, Phase.measure, Sub.cost]), by done_tac⟩
         | store r => exact ⟨_, hset _ _ _ rfl, rfl, rfl, Or.inl (measure_nextPhase_lt hp rfl rfl hpc), by done_tac⟩
 
 /-- an action of another thread does not touch `t` -/
@@ -189,8 +197,15 @@ theorem step_other (sys : Sys) {s : State} {t t' : Tid} (hne : t' ≠ t) :
           | get =>
             simp only
             cases ccLookup sys.mode s.stubs s.callCache
-                { site := site, const := const, aux := kind.isAux, args := (th.stack.take nargs).reverse } <;>
-              exact hset _ _ _ rfl
+                { site := site, const := const, aux := kind.isAux, args := (th.stack.take nargs).reverse } with
+            | some v => exact hset _ _ _ rfl
+            | none =>
+              simp only
+              cases hcr : created s t' site const (th.stack.take nargs).reverse kind with
+              | none => exact hset _ _ _ rfl
+              | some p =>
+                obtain ⟨s1, r⟩ := p
+                exact hset _ _ _ (created_threads hcr)
           | store r => exact hset _ _ _ rfl
 
 /-- Progress under any schedule: after a schedule `σ` the measure of thread `t` has dropped by at least the
